@@ -162,6 +162,33 @@ def rule_publish(r):
                 pst.lineno, "evaluated inside make_dll at build time" if sources else
                 "the temporary name is not derived, at build time, from the process id or a fresh temporary: processes forked "
                 "after import (or threads) share one name, and one compiler truncates the file another process is about to publish")
+    # the C source handed to the compiler is private to this build as well (a shared name lets one process remove or
+    # truncate the file another compiler is reading); the `system` branch (one process precompiling) is exempt
+    for cst, c in compiles:
+        srcarg = [k.value for k in c.keywords if k.arg == "source"] or c.args[0:1]
+        if not srcarg or not isinstance(srcarg[0], ast.Name):
+            continue
+        sname = srcarg[0].id
+        for a in [s_ for s_ in pf.walk_stmts(fn) if isinstance(s_, ast.Assign)]:
+            tg = [pf.unparse(t) for t in a.targets] + [pf.unparse(e) for t in a.targets if isinstance(t, ast.Tuple) for e in t.elts]
+            if sname not in tg:
+                continue
+            # which branch of an `if ... system ...` is this assignment in?
+            node, exempt = a, False
+            par = mod.parents.get(node)
+            while par is not None and par is not fn:
+                if isinstance(par, ast.If) and "system" in pf.unparse(par.test):
+                    in_body = any(node is x or any(node is y for y in ast.walk(x)) for x in par.body)
+                    negated = isinstance(par.test, ast.UnaryOp) and isinstance(par.test.op, ast.Not)
+                    exempt = (in_body and not negated) or (not in_body and negated)
+                node, par = par, mod.parents.get(par)
+            if exempt:
+                continue
+            uniq = {pf.call_name(cc) for cc in pf.calls_in(a.value)} & UNIQUE
+            r.check(bool(uniq), F, "make_dll", "C source %s = %s" % (sname, pf.unparse(a.value)[:60]), a.lineno,
+                    "private to this build (%s)" % sorted(uniq) if uniq else
+                    "the C source file name is shared by every process building this model: the first to finish removes it while "
+                    "another compiler still needs it")
     # compile_model raises when the compiler fails or produced nothing
     cm = mod.func("compile_model")
     handlers = [h for h in ast.walk(cm) if isinstance(h, ast.ExceptHandler)]
@@ -206,7 +233,7 @@ def rule_load(r):
 
 
 RULES = [
-    ("R-C18-publish", 7, "cache path published only by rename after a successful compile", rule_publish),
+    ("R-C18-publish", 8, "cache path published only by rename after a successful compile", rule_publish),
     ("R-C18-load", 4, "loader opens only the published path", rule_load),
 ]
 from .. import refs as _refs
